@@ -74,7 +74,8 @@ def borrow_search(tier, seed, hbin, rundir, _alarm):
         return None
     lines = p.stdout.strip().split("\n")
     return dict(header="(String-keyed queue; lookups through &str)", ops=[l.strip() for l in lines[1:]],
-                step=len(lines) - 2, why=lines[0], impl=lines[0], no_minimise=True)
+                step=len(lines) - 2, why=lines[0], impl=lines[0], no_minimise=True,
+                cmd=["borrow", str(seed), str(count), "80"])
 
 
 def hash_fuse_search(tier, seed, hbin, rundir, _alarm):
@@ -154,7 +155,7 @@ def zst_search(tier, seed, hbin, rundir, _alarm):
         return None
     lines = p.stdout.strip().split("\n")
     return dict(header="(degenerate item/priority types; see harness/src/zst.rs)", ops=[l.strip() for l in lines[1:]],
-                step=len(lines) - 2, why=lines[0], impl=lines[0], no_minimise=True)
+                step=len(lines) - 2, why=lines[0], impl=lines[0], no_minimise=True, cmd=["zst"])
 
 
 def zst_cap_search(tier, seed, hbin, rundir, _alarm):
@@ -165,7 +166,7 @@ def zst_cap_search(tier, seed, hbin, rundir, _alarm):
         return None
     lines = p.stdout.strip().split("\n")
     return dict(header="(capacity functions on degenerate item/priority types; see harness/src/zst.rs)", ops=[l.strip() for l in lines[1:]],
-                step=len(lines) - 2, why=lines[0], impl=lines[0], no_minimise=True)
+                step=len(lines) - 2, why=lines[0], impl=lines[0], no_minimise=True, cmd=["zst", "cap"])
 
 
 def drops_search(tier, seed, hbin, rundir, _alarm):
@@ -179,7 +180,8 @@ def drops_search(tier, seed, hbin, rundir, _alarm):
         return None
     lines = p.stdout.strip().split("\n")
     return dict(header="(drop balance of instrumented item / priority types; see harness/src/drops.rs)",
-                ops=[l.strip() for l in lines[1:]], step=len(lines) - 2, why=lines[0], impl=lines[0], no_minimise=True)
+                ops=[l.strip() for l in lines[1:]], step=len(lines) - 2, why=lines[0], impl=lines[0], no_minimise=True,
+                cmd=["drops", str(seed), str(count), "60"])
 
 
 def huge(kinds, aspects):
@@ -200,7 +202,8 @@ def huge(kinds, aspects):
         run.stats = dict(large_scenarios=0)
         why = lines[0] if lines and lines[0] else "large-queue battery died (exit %d)" % p.returncode
         return dict(header="(large queues, implementation only: pqharness huge %s %d %s %s)" % (kinds, seed, tier, aspects),
-                    ops=[l.strip() for l in lines[1:]], step=max(len(lines) - 2, 0), why=why, impl=why, no_minimise=True)
+                    ops=[l.strip() for l in lines[1:]], step=max(len(lines) - 2, 0), why=why, impl=why, no_minimise=True,
+                    cmd=["huge", kinds, str(seed), tier, aspects])
     return run
 
 
